@@ -70,6 +70,7 @@ type Worker struct {
 	loopBound        int
 	absFloatArith    bool
 	splitDiv         bool
+	boundedChans     bool
 	curFrame         *frame
 	curInstr         ssa.Instruction
 	whereLog         []string
@@ -1150,7 +1151,7 @@ var initDeny = map[string]bool{
 	"io/fs": true, "os/signal": true, "os/exec": true, "net": true, "log": true, "testing": true, "flag": true,
 	"internal/bytealg": true, "internal/abi": true, "internal/race": true, "internal/itoa": true, "path/filepath": true,
 	"internal/fmtsort": true, "unsafe": true, "runtime/debug": true, "internal/goos": true, "internal/goarch": true,
-	"os/user": true, "compress/gzip": true, "compress/flate": true, "hash/crc32": true, "context": true,
+	"os/user": true, "compress/flate": true, "hash/crc32": true, "context": true,
 	"math/rand": true, "math/rand/v2": true, "crypto/rand": true, "internal/godebugs": true, "internal/bisect": true,
 	"runtime/pprof": true, "runtime/trace": true, "text/tabwriter": true, "golang.org/x/sys/unix": true,
 	"golang.org/x/term": true, "github.com/fsnotify/fsnotify": true, "regexp": true, "regexp/syntax": true,
